@@ -464,8 +464,17 @@ func (s *SMT) solve(query string, name string) *SolveResult {
 					}
 				case "sat":
 					nSat++
-					satOut, satBy = a.out, a.name
-					break collect
+					// models are read from z3 5.1's output (the format the model reader was written against); another
+					// back end's sat answer decides, and z3 5.1 gets 20 s more to deliver the model
+					if satBy != "z3-5.1.0" {
+						satOut, satBy = a.out, a.name
+					}
+					if a.name == "z3-5.1.0" || answered["z3-5.1.0"] {
+						break collect
+					}
+					if grace == nil {
+						grace = time.After(20 * time.Second)
+					}
 				}
 			case <-grace:
 				break collect
